@@ -245,8 +245,15 @@ def h_refit_nested(h):
         return a + b * other(x)
 
     order = h.cfg["order"]
-    sig = DF(lin)
-    mu = DF(nested, other=sig)
+    if h.cfg.get("link", "mu-uses-sigma") == "mu-uses-sigma":
+        sig = DF(lin)
+        mu = DF(nested, other=sig)
+        plan = (("sigma", sig, None), ("mu", mu, sig))
+    else:
+        # the dependent parameter comes AFTER the one it uses in the distribution's own parameter order
+        mu = DF(lin)
+        sig = DF(nested, other=mu)
+        plan = (("mu", mu, None), ("sigma", sig, mu))
     params = {"mu": mu, "sigma": sig} if order == "dependent-first" else {"sigma": sig, "mu": mu}
     descs = [{"distribution": FAMILIES["Weibull"].make(), "intervals": _slicer("width")},
              {"distribution": FAMILIES["LogNormal"].make(), "conditional_on": 0, "parameters": params}]
@@ -263,7 +270,14 @@ def h_refit_nested(h):
     callsB, optB = out[1]
     cd = model.distributions[1]
     estB = [c["est"] for c in callsB[1:]]
-    for pname, dep, uses in (("sigma", sig, None), ("mu", mu, sig)):
+    for tagx, (calls_x, opt_x) in (("first fit", out[0]),):
+        est_x = [c["est"] for c in calls_x[1:]]
+        for pname, dep, uses in plan:
+            mine = [k for k, o in enumerate(opt_x) if o["f"] is dep]
+            h.check(len(mine) >= 1, "first-fit-fits-every-dependence-function", pname)
+            if mine:
+                h.close(list(opt_x[mine[-1]]["y"]), [e[pname] for e in est_x], "first-fit-uses-the-interval-estimates")
+    for pname, dep, uses in plan:
         mine = [k for k, o in enumerate(optB) if o["f"] is dep]
         h.check(len(mine) >= 1, "re-fit-fits-every-dependence-function-again", pname)
         if not mine:
@@ -282,7 +296,8 @@ def obligations(tier):
     for kind in ("number_default", "width_default", "points"):
         yield ("refit_other_data", h_refit_other_data, {"slicer": kind, "rows": 3}, {"max_paths": 30000})
     for order in ("dependent-first", "conditioner-first"):
-        yield ("refit_nested", h_refit_nested, {"rows": 3, "order": order}, {})
+        for link in ("mu-uses-sigma", "sigma-uses-mu"):
+            yield ("refit_nested", h_refit_nested, {"rows": 3, "order": order, "link": link}, {})
     for kind in ("width", "number", "points"):
         for perm in ("reverse", "rotate", "swap"):
             yield ("fit", h_fit, {"n_dim": 2, "slicer": kind, "chain": "chain", "perm": perm,
